@@ -149,14 +149,16 @@ static std::string gen_tunnel(uint64_t seed, uint64_t idx, bool thorough) {
     std::vector<uint64_t> frame_t;
     if (uniform_len >= 0 && count > 8) nframes = std::max(nframes, count * (int)r.range(1, 3));
     bool repeats = r.chance(0.25);  // a source that sends the same frame again and again
+    // an FD-capable bus carries classic frames too: a socket with FD frames enabled delivers them as 16-byte reads
+    bool mixed_bus = fd && uniform_len < 0 && r.chance(0.3);
     CanRec prev_frame;
     for (int i = 0; i < nframes; i++) {
-        CanRec c = gen_can_frame(r, fd);
+        CanRec c = gen_can_frame(r, fd && !(mixed_bus && r.chance(0.35)));
         if (repeats && i > 0 && r.chance(0.5)) {
             c = prev_frame;
             if (r.chance(0.4)) {  // same identifier and length again, other flags and/or content
-                if (fd) c.flags = (c.flags & CANFD_FDF) | (r.coin() ? CANFD_BRS : 0) | (r.coin() ? CANFD_ESI : 0);
-                else if (r.chance(0.3)) c.can_id ^= CAN_RTR_FLAG;
+                if (c.fd) c.flags = (c.flags & CANFD_FDF) | (r.coin() ? CANFD_BRS : 0) | (r.coin() ? CANFD_ESI : 0);
+                else if (!fd && r.chance(0.3)) c.can_id ^= CAN_RTR_FLAG;
                 if (r.coin()) { auto d = rnd_bytes(r, c.len, 1); memcpy(c.data, d.data(), c.len); }
             }
         } else if (uniform_len >= 0) {
